@@ -399,9 +399,15 @@ Record scan_state := mkScan {
   sc_lits : list string          (* literal_strings, reversed *)
 }.
 
+(** [ScanUnterminated]: a string literal opens and never closes.  The scanner does not know the
+    conditional state, so it hands over what the code keeps when the line belongs to a group that
+    is not selected: the uncommented text so far followed by the text before the opening quote,
+    [insert_it] and the scanner state as they are at that point (the rest of the line is dropped,
+    no literal is recorded, the comment flag is not touched).  [line_step] makes it an error
+    when the state is Active. *)
 Inductive scan_res :=
 | ScanOk (out : string) (insert_it : bool) (st : scan_state)
-| ScanUnterminated.
+| ScanUnterminated (out : string) (insert_it : bool) (st : scan_state).
 
 (** find the closing quote: [s] starts just after the opening quote; returns the literal body *)
 Fixpoint find_close (fuel : nat) (s : string) (acc_rev : string) : option (string * string) :=
@@ -451,7 +457,7 @@ Fixpoint scan_loop (fuel : nat) (asm : bool) (remaining out : string) (insert_it
           | Some (lft, _) =>
               let after_quote := string_drop (S (String.length lft)) remaining in
               match find_close (S (String.length remaining)) after_quote "" with
-              | None => ScanUnterminated
+              | None => ScanUnterminated (out ++ lft) insert_it st
               | Some (body, rest) =>
                   scan_loop f asm rest (out ++ lft ++ "@" ++ string_of_N (sc_next_lit st) ++ "@") insert_it
                             (mkScan false (sc_next_lit st + 1) (body :: sc_lits st))
@@ -616,15 +622,14 @@ Definition set_macros (p : pstate) (ms : list macro) : pstate :=
 Definition set_scan (p : pstate) (sc : scan_state) : pstate :=
   mkP (mkCtx (c_macros (p_ctx p)) sc) (p_out p) (p_map p) (p_state p) (p_stack p).
 
-(** one logical line (after splicing): scanner, directive handling or emission.
+(** one logical line (after splicing), once the scanner has produced the uncommented text [out],
+    the flag [insert_it] and its new state [sc]: directive handling or emission.
     [rec] processes an included file. *)
-Definition line_step (rec : string -> option (string * N) -> bool -> list string -> pstate -> presult)
-           (fs : files) (fname : string) (inc : option (string * N)) (asm : bool)
-           (p : pstate) (line : N) (buf : string) : presult :=
+Definition line_body (rec : string -> option (string * N) -> bool -> list string -> pstate -> presult)
+           (fs : files) (fname : string) (inc : option (string * N))
+           (p : pstate) (line : N) (buf : string)
+           (out : string) (insert_it : bool) (sc : scan_state) : presult :=
   let has_lf := ends_with nl buf in
-  match scan_line asm buf (c_scan (p_ctx p)) with
-  | ScanUnterminated => err ESyntax fname line inc "Unterminated string"
-  | ScanOk out insert_it sc =>
       let p := set_scan p sc in
       if negb insert_it then POk p else
       let substr := trim out in
@@ -732,27 +737,28 @@ Definition line_step (rec : string -> option (string * N) -> bool -> list string
               end
             else POk p
           else if String.eqb name "#if" then
-            match arg with
-            | None => err ESyntax fname line inc "Expected expression after `#if`"
-            | Some e =>
-                if cstate_eqb st Active then
+            (* the expression is only looked at when it decides something *)
+            if cstate_eqb st Active then
+              match arg with
+              | None => err ESyntax fname line inc "Expected expression after `#if`"
+              | Some e =>
                   match evaluate e with
                   | EvOk b _ => POk (set_state p (if b then Active else Inactive) (st :: p_stack p))
                   | EvErr m => err ESyntax fname line inc m
                   end
-                else POk (set_state p Skip (st :: p_stack p))
-            end
+              end
+            else POk (set_state p Skip (st :: p_stack p))
           else if String.eqb name "#elif" then
-            match arg with
-            | None => err ESyntax fname line inc "Expected expression after `#elif`"
-            | Some e =>
-                if cstate_eqb st Inactive then
+            if cstate_eqb st Inactive then
+              match arg with
+              | None => err ESyntax fname line inc "Expected expression after `#elif`"
+              | Some e =>
                   match evaluate e with
                   | EvOk b _ => POk (set_state p (if b then Active else Inactive) (p_stack p))
                   | EvErr m => err ESyntax fname line inc m
                   end
-                else POk (set_state p Skip (p_stack p))
-            end
+              end
+            else POk (set_state p Skip (p_stack p))
           else if String.eqb name "#else" then
             match arg with
             | Some _ => err ESyntax fname line inc "Unexpected expression after `#else`"
@@ -775,12 +781,30 @@ Definition line_step (rec : string -> option (string * N) -> bool -> list string
               | Some e => err ECompiler fname line inc e
               end
             else POk p
-          else err ESyntax fname line inc "Unrecognised preprocessor directive"
+          else
+            (* directives of other compilers may sit in groups that are not selected *)
+            if cstate_eqb st Active
+            then err ESyntax fname line inc "Unrecognised preprocessor directive"
+            else POk p
         else if cstate_eqb st Active then
           let included := match inc with Some _ => true | None => false end in
           let text := if negb (ends_with nl new_line) && (has_lf || included) then new_line ++ nl else new_line in
           POk (emit p here text)
-        else POk p
+        else POk p.
+
+(** one logical line (after splicing): the scanner, then [line_body].  An unterminated string
+    literal is an error only in selected text (state Active); in a group that is not selected
+    the line goes on with the text that precedes the opening quote (a directive at its start
+    still counts). *)
+Definition line_step (rec : string -> option (string * N) -> bool -> list string -> pstate -> presult)
+           (fs : files) (fname : string) (inc : option (string * N)) (asm : bool)
+           (p : pstate) (line : N) (buf : string) : presult :=
+  match scan_line asm buf (c_scan (p_ctx p)) with
+  | ScanOk out insert_it sc => line_body rec fs fname inc p line buf out insert_it sc
+  | ScanUnterminated out insert_it sc =>
+      if cstate_eqb (p_state p) Active
+      then err ESyntax fname line inc "Unterminated string"
+      else line_body rec fs fname inc p line buf out insert_it sc
   end.
 
 (** the lines of one file *)
